@@ -598,6 +598,13 @@ def rp(kind, **kw):
 
 def oracle(ctx, volume=1):
     """the property on the implementation, against the independent statement of the rule above"""
+    ctx.partial = [{"theorem": "QM.C20.qmpt_accept_iff_shape_partial",
+                    "missing": "StandardQmpt also accepts [state i, mprocess 0, povm j] followed by any number of ('mprocess', 0) items "
+                               "(known finding D14; exact accepted language: qmpt_accept_iff; witness: qmpt_accept_iff_shape_fails)"}]
+    ctx.notes = ["non-iterable schedules (None) raise UnboundLocalError instead of the schedule-item error (known finding D13; "
+                 "model mirrors the stale loop variable; witness reject_item_or_order_nonIterable_fails)",
+                 "Experiment._validate_type and the downstream parts of the tomography constructors (set_coeffs, is_valid_experiment) are not modelled; "
+                 "the oracle constructs the real objects and executes every accepted schedule"]
     # (a) constructor over the exhaustive single-schedule language, multi lists and random long schedules
     n = 0
     for cfg, s, _ in single_schedules(ctx):
